@@ -35,6 +35,18 @@ theorem dupResp_eq (c : Cfg F G) (i : Nat) (a b : DkgResp F G) (ha : GRs c i a) 
 
 theorem keyRs_genuine (c : Cfg F G) (j k rnd : Nat) : keyRs (⟨j, some (c.resp j k rnd)⟩ : DkgResp F G) = (j, k) := rfl
 
+/-- a genuine deal as member `i` receives it is a genuine deal in the sense of `HonestReach` -/
+theorem genuineFor_genuine (c : Cfg F G) (ephs : List (List F)) (hw : WellFormed c ephs) (i : Nat) (m : DkgDeal F G)
+    (h : GenuineDealFor c i m) : GenuineDeal c m := by
+  obtain ⟨eph, rnd, e, hlt, hd, hs⟩ := h
+  have hl : m.index < c.longs.length := hlt
+  have hp : m.index < c.polys.length := by rw [hw.polys_len]; exact hlt
+  refine ⟨m.index, i, c.longs.getD m.index 0, eph, c.polys.getD m.index [], rnd, by simp [List.getD_eq_getElem?_getD, hl],
+    by simp [List.getD_eq_getElem?_getD, hp], ?_⟩
+  rcases m with ⟨idx, dl⟩
+  simp only at hd hs ⊢
+  rw [hd, ← hs]; rfl
+
 /-! ### the invariant -/
 
 def stageRank : Stage F G → Nat
@@ -75,6 +87,8 @@ structure LocalPre (c : Cfg F G) (ephs : List (List F)) (i : Nat) (m : Member F 
     (stageRank m.stage = 2 → m.sent = Sent.pk (c.pkMsg i) :: sentDeals c ephs i) ∧
     (3 ≤ stageRank m.stage → ∃ rs, GoodResps c i rs ∧
       m.sent = Sent.pk (c.pkMsg i) :: sentDeals c ephs i ++ [Sent.resps rs])
+  hreach : (∀ d, m.stage = .waitDeals d → HonestReach c i d) ∧ (∀ d, m.stage = .waitResps d → HonestReach c i d) ∧
+    (∀ d ks, m.stage = .done d ks → HonestReach c i d ∧ distKeyShare d = .ok ks)
 
 /-- no stage is waiting for a batch that has already been handed over -/
 def Quiescent (m : Member F G) : Prop :=
@@ -103,9 +117,9 @@ theorem adv_pk (c : Cfg F G) (ephs : List (List F)) (hw : WellFormed c ephs) (i 
   obtain ⟨d0, hbg, hng⟩ := buildGen_genuine c ephs hw i hi batch hP hnd
     (fun j hj hji => hfull j ((mem_others c.n i j).2 ⟨hj, hji⟩))
   obtain ⟨d1, hdl, hst1⟩ := deals_genuine c ephs hw i hi d0 hng
-  have hown : (⟨m.index, some (m.long • c.g)⟩ : PkMsg G) = c.pkMsg i := by rw [h.hidx, h.hlong]; rfl
+  have hown : (⟨m.index, some (m.long • c.g), m.index⟩ : PkMsg G) = c.pkMsg i := by rw [h.hidx, h.hlong]; rfl
   refine ⟨afterPk m d1 (sentDeals c ephs i), ?_, rfl, ?_⟩
-  · have hbg' : buildGen c.g m.n m.long m.f ⟨m.index, some (m.long • c.g)⟩ batch = some d0 := by
+  · have hbg' : buildGen c.g m.n m.long m.f ⟨m.index, some (m.long • c.g), m.index⟩ batch = some d0 := by
       rw [hown, h.hn, h.hlong, h.hf]; exact hbg
     have hdl' := hdl
     rw [← h.hephs] at hdl'
@@ -117,7 +131,14 @@ theorem adv_pk (c : Cfg F G) (ephs : List (List F)) (hw : WellFormed c ephs) (i 
       | true => rfl
       | false => have := h.hst.1 rfl; omega
     refine ⟨h.hn, h.hidx, h.hlong, h.hf, h.hephs, h.ppk, h.pdl, h.prs, h.hsp, h.hsd, h.hsr, by simp [stageRank, afterPk, afterDl, afterRs],
-      by simp [stageRank, afterPk, afterDl, afterRs, hstt], ?_, ?_, ?_, ?_, ?_, ?_⟩
+      by simp [stageRank, afterPk, afterDl, afterRs, hstt], ?_, ?_, ?_, ?_, ?_, ?_, ?_⟩
+    rotate_right
+    · refine ⟨fun d hd => ?_, fun d hd => (by cases hd), fun d ks hd => (by cases hd)⟩
+      injection hd with hd; rw [← hd]
+      have hl : i < c.longs.length := hi
+      have hp : i < c.polys.length := by rw [hw.polys_len]; exact hi
+      exact HonestReach.init (c.longs.getD i 0) (c.polys.getD i []) (ephs.getD i []) d0 d1 _
+        (by simp [List.getD_eq_getElem?_getD, hl]) (by simp [List.getD_eq_getElem?_getD, hp]) hng hdl
     · exact ⟨fun hh => by simp [stageRank, afterPk, afterDl, afterRs] at hh, fun _ => ⟨rfl, by rw [hg]; rfl⟩⟩
     · exact ⟨fun _ => h.hdl.1 (by omega), fun hh => by simp [stageRank, afterPk, afterDl, afterRs] at hh⟩
     · exact ⟨fun _ => h.hrs.1 (by omega), fun hh => by simp [stageRank, afterPk, afterDl, afterRs] at hh⟩
@@ -159,7 +180,12 @@ theorem adv_dl (c : Cfg F G) (ephs : List (List F)) (hw : WellFormed c ephs) (i 
       | true => rfl
       | false => have := h.hst.1 rfl; omega
     refine ⟨h.hn, h.hidx, h.hlong, h.hf, h.hephs, h.ppk, h.pdl, h.prs, h.hsp, h.hsd, h.hsr, by simp [stageRank, afterPk, afterDl, afterRs],
-      by simp [stageRank, afterPk, afterDl, afterRs, hstt], ?_, ?_, ?_, ?_, ?_, ?_⟩
+      by simp [stageRank, afterPk, afterDl, afterRs, hstt], ?_, ?_, ?_, ?_, ?_, ?_, ?_⟩
+    rotate_right
+    · refine ⟨fun d hd => (by cases hd), fun d2 hd => ?_, fun d ks hd => (by cases hd)⟩
+      injection hd with hd; rw [← hd]
+      exact runDeals_reach c i batch d [] d' _ (h.hreach.1 d hs)
+        (fun x hx => genuineFor_genuine c ephs hw i x (hP x hx).1) hrun
     · exact ⟨fun hh => by simp [stageRank, afterPk, afterDl, afterRs] at hh, fun _ => h.hpk.2 (by omega)⟩
     · exact ⟨fun hh => by simp [stageRank, afterPk, afterDl, afterRs] at hh, fun _ => ⟨rfl, by rw [hg]; rfl⟩⟩
     · exact ⟨fun _ => h.hrs.1 (by omega), fun hh => by simp [stageRank, afterPk, afterDl, afterRs] at hh⟩
@@ -225,7 +251,11 @@ theorem adv_rs (c : Cfg F G) (ephs : List (List F)) (hw : WellFormed c ephs) (i 
       | true => rfl
       | false => have := h.hst.1 rfl; omega
     refine ⟨h.hn, h.hidx, h.hlong, h.hf, h.hephs, h.ppk, h.pdl, h.prs, h.hsp, h.hsd, h.hsr, by simp [stageRank, afterRs],
-      by simp [stageRank, afterRs, hstt], ?_, ?_, ?_, ?_, ?_, ?_⟩
+      by simp [stageRank, afterRs, hstt], ?_, ?_, ?_, ?_, ?_, ?_, ?_⟩
+    rotate_right
+    · refine ⟨fun d hd => (by cases hd), fun d hd => (by cases hd), fun d2 ks2 hd => ?_⟩
+      injection hd with hd1 hd2; rw [← hd1, ← hd2]
+      exact ⟨runResps_reach c i batch d d' true (h.hreach.2.1 d hs) hrun, hks⟩
     · exact ⟨fun hh => by simp [stageRank, afterRs] at hh, fun _ => h.hpk.2 (by omega)⟩
     · exact ⟨fun hh => by simp [stageRank, afterRs] at hh, fun _ => h.hdl.2 (by omega)⟩
     · exact ⟨fun hh => by simp [stageRank, afterRs] at hh, fun _ => ⟨rfl, by rw [hg]; rfl⟩⟩
